@@ -1,0 +1,64 @@
+//go:build verif
+
+package ramfs
+
+import (
+	p9p "github.com/frobnitzem/go-p9p"
+)
+
+// Verification hooks (build tag "verif" only; add-only, no behaviour change):
+// observing nodes that are no longer linked into the tree.
+
+// VerifEntRef is an opaque reference to one node of a server's tree.  It keeps
+// the node observable after it has been unlinked, so that its reference count
+// can be inspected once every fid is clunked.
+type VerifEntRef struct{ e *FileEnt }
+
+// VerifHandleEnts returns the nodes a handle holds: its parent chain (root
+// first) followed by its entry.  ok is false if d is not a ramfs handle.
+func VerifHandleEnts(d p9p.Dirent) (refs []VerifEntRef, ok bool) {
+	h, ok := d.(FileHandle)
+	if !ok || h.ent == nil {
+		return nil, false
+	}
+	for _, p := range h.parents {
+		refs = append(refs, VerifEntRef{p})
+	}
+	return append(refs, VerifEntRef{h.ent}), true
+}
+
+// State reports the node's qid path, its reference count and its number of
+// children (-1 for a node without a children map).
+func (r VerifEntRef) State() (qpath uint64, nref int, nchildren int) {
+	r.e.Lock()
+	defer r.e.Unlock()
+	nchildren = -1
+	if r.e.children != nil {
+		nchildren = len(r.e.children)
+	}
+	return r.e.Info.Qid.Path, r.e.nref, nchildren
+}
+
+// VerifLinked reports whether the node is reachable from the root of f.
+func VerifLinked(f p9p.FileSys, r VerifEntRef) bool {
+	fs, ok := f.(*fServer)
+	if !ok {
+		return false
+	}
+	seen := map[*FileEnt]bool{fs.root: true}
+	todo := []*FileEnt{fs.root}
+	for len(todo) > 0 {
+		n := todo[len(todo)-1]
+		todo = todo[:len(todo)-1]
+		if n == r.e {
+			return true
+		}
+		for _, c := range n.children {
+			if !seen[c] {
+				seen[c] = true
+				todo = append(todo, c)
+			}
+		}
+	}
+	return false
+}
